@@ -1,0 +1,26 @@
+//go:build verif
+
+package oper
+
+import (
+	"sort"
+
+	"github.com/goghcrow/yae/verifhook"
+)
+
+// verifSortHook reports the in-place sort of ops as a read of the slice, and
+// as a write when the sort is going to move elements.
+func verifSortHook(ops []Operator) {
+	if len(ops) == 0 {
+		return
+	}
+	sorted := sort.SliceIsSorted(ops, func(i, j int) bool {
+		x := ops[i].Kind
+		y := ops[j].Kind
+		if x == y || len(x) == len(y) {
+			return false
+		}
+		return len(x) > len(y)
+	})
+	verifhook.Touch(&ops[0], !sorted, "oper.Sort")
+}
